@@ -276,12 +276,7 @@ func r02e(c *an.Ctx) {
 		// appends of strings inside the range over response.Errors()
 		isCrit := func(v ssa.Value) bool { return isFieldNamed(v, "Critical") }
 		critGuard := func(b *ssa.BasicBlock) bool {
-			for _, a := range an.Atoms(b) {
-				if a.Y == nil && a.Val && isCrit(a.X) {
-					return true
-				}
-			}
-			return false
+			return an.GuardedByAll(b, func(a an.Atom) bool { return a.Y == nil && a.Val && isCrit(a.X) })
 		}
 		var critLists, otherLists []*ssa.Call
 		for _, ci := range an.CallsNamed(fn, "builtin.append") {
